@@ -862,6 +862,9 @@ func (req *IdpAuthnRequest) MakeAssertionEl() error {
 		return err
 	}
 
+	// A signature left by an earlier attempt (one that failed later, in the
+	// encryption step) must not be part of what is signed now.
+	req.Assertion.Signature = nil
 	assertionEl := req.Assertion.Element()
 
 	signedAssertionEl, err := signingContext.SignEnveloped(assertionEl)
